@@ -11,6 +11,6 @@ CONSTANTS
   AtomVals = {1}
   Scripts = {}
   WrapArm = FALSE
-  Check = {"data", "variant"}
+  Check = {"stream"}
 POSTCONDITION Accepted
 CHECK_DEADLOCK FALSE
